@@ -51,3 +51,21 @@ Proof.
   unfold seq_keys_ok. intros H. apply andb_true_iff in H. destruct H as [H1 H2].
   apply negb_true_iff in H2. split; [apply nodupb_sound; exact H1 | apply existsb_wkey_false; exact H2].
 Qed.
+
+(* ---- special-value classes of log-densities (glue of HMC/NUTS): log_prob_fn must return the model's
+   block log-density at EVERY point: NaN stays NaN, -inf stays -inf, +inf stays +inf, finite values agree ---- *)
+From Coq Require Import QArith Qabs.
+From LV Require Import Base.Xnum.
+
+Definition xsame (tol : Q) (a b : xnum) : bool :=
+  match a, b with
+  | XNaN, XNaN | XNegInf, XNegInf | XPosInf, XPosInf => true
+  | XFin p, XFin q => Qle_bool (Qabs (p - q)) tol
+  | _, _ => false
+  end.
+
+(* kernel.py ModelMixin.log_prob_fn: position |-> log_prob (update_state position model_state), nothing else *)
+Definition log_prob_fn_model {P : Type} (block_density : P -> xnum) (pos : P) : xnum := block_density pos.
+
+Definition probes_ok (l : list (xnum * xnum)) : bool :=
+  forallb (fun p => xsame (1 # 100000000) (log_prob_fn_model (fun _ => snd p) tt) (fst p)) l.
